@@ -91,6 +91,10 @@ def t_reorder_zones(rng, pr):
 def t_translate(rng, pr):
     q = copy.deepcopy(pr)
     d = rng.choice([10.0, 50.0, -20.0, 100.0, 7.5])
+    if rng.random() < 0.4:
+        # a description in which one of the temperatures is exactly 0 (utility levels first: their target may be optional)
+        pool = [u[k] for u in q["utilities"] for k in ("t_target", "t_supply")] * 2 + [x[k] for x in q["streams"] for k in ("t_supply", "t_target")]
+        d = -float(rng.choice(pool))
     for s in q["streams"] + q["utilities"]:
         s["t_supply"] += d; s["t_target"] += d
     return q, {"dT": d}
